@@ -34,6 +34,10 @@ class Raised(Exception):
         self.what = what
 
 
+class NativeError(Exception):
+    """base of exceptions a rule's model objects raise towards the evaluated code; handlers match them by class name"""
+
+
 class _Break(Exception):
     pass
 
@@ -59,6 +63,16 @@ BUILTINS = {'len': len, 'int': int, 'bool': bool, 'min': min, 'max': max, 'abs':
 METHODS = {(int, 'bit_length'), (bytes, 'lstrip'), (bytes, 'rstrip'), (bytearray, 'lstrip'), (bytearray, 'rstrip'),
            (list, 'append'), (str, 'join'), (str, 'lower'), (str, 'upper'), (str, 'encode'), (bytes, 'join'),
            (bytes, 'decode'), (bytes, 'hex'), (str, 'format')}
+for _m in ('items', 'keys', 'values', 'get', 'pop', 'setdefault'):
+    METHODS.add((dict, _m))
+BUILTINS['next'] = next
+BUILTINS['iter'] = iter
+BUILTINS['enumerate'] = lambda x, start=0: list(enumerate(x, start))
+BUILTINS['str'] = str
+BUILTINS['tuple'] = tuple
+BUILTINS['sorted'] = sorted
+BUILTINS['any'] = any
+BUILTINS['all'] = all
 for _t in (str, bytes, bytearray):
     for _m in ('endswith', 'startswith', 'strip', 'lstrip', 'rstrip', 'lower', 'upper', 'title', 'swapcase', 'find', 'index',
                'count', 'split', 'replace', 'isdigit', 'isalpha', 'isspace'):
@@ -191,6 +205,8 @@ class Evaluator:
         if isinstance(n.func, ast.Name) and n.func.id in BUILTINS and n.func.id not in self.env:
             try:
                 return BUILTINS[n.func.id](*args, **kwargs)
+            except (StopIteration, KeyError, IndexError, ValueError):
+                raise           # part of the evaluated behaviour (next() on an exhausted iterator, int('x') ...)
             except Exception as e:      # pylint: disable=broad-except
                 raise Unsupported('%s: %s' % (ast.unparse(n), e))
         if isinstance(n.func, ast.Attribute):
@@ -212,6 +228,16 @@ class Evaluator:
                 raise Unsupported('unpacking')
             for x, y in zip(t.elts, v):
                 self.assign(x, y)
+        elif isinstance(t, ast.Subscript) and not isinstance(t.slice, ast.Slice):
+            base = self.ev(t.value)
+            if not isinstance(base, (dict, list, Native)):
+                raise Unsupported('item assignment on %s' % type(base).__name__)
+            base[self.ev(t.slice)] = v
+        elif isinstance(t, ast.Attribute):
+            base = self.ev(t.value)
+            if not isinstance(base, Native):
+                raise Unsupported('attribute assignment on %s' % type(base).__name__)
+            setattr(base, t.attr, v)
         else:
             raise Unsupported('assignment target %s' % ast.unparse(t))
 
@@ -225,9 +251,13 @@ class Evaluator:
                 for t in st.targets:
                     self.assign(t, v)
             elif isinstance(st, ast.AugAssign):
-                if not isinstance(st.target, ast.Name) or type(st.op) not in BIN:
+                if type(st.op) not in BIN:
                     raise Unsupported(ast.unparse(st))
-                self.env[st.target.id] = BIN[type(st.op)](self.ev(st.target), self.ev(st.value))
+                if isinstance(st.target, ast.Name):
+                    self.env[st.target.id] = BIN[type(st.op)](self.ev(st.target), self.ev(st.value))
+                else:
+                    load = ast.parse(ast.unparse(st.target), mode='eval').body
+                    self.assign(st.target, BIN[type(st.op)](self.ev(load), self.ev(st.value)))
             elif isinstance(st, ast.If):
                 self.run(st.body if self.ev(st.test) else st.orelse)
             elif isinstance(st, ast.While):
@@ -244,7 +274,9 @@ class Evaluator:
                     self.run(st.orelse)
             elif isinstance(st, ast.For):
                 it = self.ev(st.iter)
-                if not isinstance(it, (range, list, tuple, bytes, bytearray, str)):
+                if isinstance(it, dict):
+                    it = list(it)
+                if not isinstance(it, (range, list, tuple, bytes, bytearray, str)) and type(it).__name__ not in ('odict_items', 'dict_items', 'dict_keys', 'dict_values', 'odict_keys', 'odict_values'):
                     raise Unsupported('iteration over %s' % ast.unparse(st.iter))
                 broke = False
                 for x in it:
@@ -277,7 +309,7 @@ class Evaluator:
             else:
                 raise Unsupported('statement %s' % type(st).__name__)
 
-    NATIVE_ERRORS = (KeyError, IndexError, ValueError, AttributeError, TypeError, ZeroDivisionError)
+    NATIVE_ERRORS = (KeyError, IndexError, ValueError, AttributeError, TypeError, ZeroDivisionError, StopIteration, NativeError)
 
     def run_try(self, st):
         """try / except / else / finally: handlers are matched by exception class *name* (a ``raise X(...)`` executed by
@@ -328,9 +360,11 @@ def class_call_hook(cls, extra=None, model=None):
     """hook resolving ``cls.m(...)`` / ``self.m(...)`` through the static MRO of ``cls`` (a sa.model.ClassInfo) and
     evaluating the callee's body with the same hook; with ``model`` given, module level class names evaluate to ClassRef
     and calls on a ClassRef resolve the same way; ``extra`` is consulted first"""
-    def call_method(owner, m, n, ev):
+    def call_method(owner, m, n, ev, bound=None):
         params = [a.arg for a in m.node.args.args]
+        first = None
         if params and params[0] in ('self', 'cls'):
+            first = params[0]
             params = params[1:]
         args = [ev.ev(a) for a in n.args]
         env = dict(zip(params, args))
@@ -339,7 +373,9 @@ def class_call_hook(cls, extra=None, model=None):
         defaults = m.node.args.defaults
         for p, d in zip(params[len(params) - len(defaults):], defaults):
             if p not in env:
-                env[p] = ev.ev(d)
+                env[p] = Evaluator({}, None, name_hook_for(m.module, None)).ev(d)
+        if first is not None and bound is not None:
+            env[first] = bound
         sub = Evaluator(env, make(owner, m.module), name_hook_for(m.module, ev.name_hook))
         return sub.function(m.node)
 
@@ -362,7 +398,11 @@ def class_call_hook(cls, extra=None, model=None):
                     return r
             f = n.func
             if isinstance(f, ast.Attribute):
-                if isinstance(f.value, ast.Name) and f.value.id in ('self', 'cls') and f.value.id not in ev.env:
+                bound = None
+                if isinstance(f.value, ast.Name) and f.value.id in ('self', 'cls'):
+                    bound = ev.env.get(f.value.id)
+                    if isinstance(bound, Native) and callable(getattr(bound, f.attr, None)):
+                        return NotImplemented          # a method of the model object itself
                     target = owner
                 else:
                     try:
@@ -375,7 +415,7 @@ def class_call_hook(cls, extra=None, model=None):
                 m = target.resolve(f.attr)
                 if m is None or getattr(m.module, 'external', False):
                     raise Unsupported('unknown method %s.%s' % (getattr(target, 'name', '?'), f.attr))
-                return call_method(target, m, n, ev)
+                return call_method(target, m, n, ev, bound)
             return NotImplemented
         return hook
     top = make(cls, cls.module)
